@@ -475,7 +475,8 @@ def register_numpy():
 
     @normalize_token.register(np.memmap)
     def normalize_mmap(mm):
-        return hash_buffer_hex(np.ascontiguousarray(mm))
+        # Same treatment as any other array: content, dtype and shape
+        return normalize_array(np.asarray(mm))
 
     @normalize_token.register(np.ufunc)
     def normalize_ufunc(func):
